@@ -715,4 +715,26 @@ theorem heuristic_traces (ft lt : Nat) :
     Gen.hw_init_trace_a ft = ft ∧ Gen.hw_init_trace_b ft = ft ∧ Gen.hw_fl_first ft = ft ∧ Gen.hw_fl_last lt = lt
     ∧ Gen.hw_nonzero_trace ft = ft ∧ Gen.hw_dup_first ft = ft ∧ Gen.hw_dup_last lt = lt := ⟨rfl, rfl, rfl, rfl, rfl, rfl, rfl⟩
 
+/-! ### the header-word table: where its rows are stored and read -/
+
+/-- `to_buffer` stores the three words of row `i` at `12·i`, `12·i + 4`, `12·i + 8` of a 1068-byte buffer (89 rows), which
+`make_header` places — and the `thorough` converter patches — at byte 980; the reader slices bytes 980 … 2048 and reads
+row `i`, word `j` at `12·i + j`: the offsets of `Header.rowAt` / `tableWrites` / `getRow`.  The array count is patched where
+`make_header` wrote it. -/
+theorem header_table_layout (i : Nat) :
+    Gen.tbl_bytes = 12 * Header.tableRows
+    ∧ Gen.w_table + Gen.tbl_code_lo (Gen.tbl_row_start i) = Header.rowAt i
+    ∧ Gen.w_table + Gen.tbl_const_lo (Gen.tbl_row_start i) = Header.rowAt i + 4
+    ∧ Gen.w_table + Gen.tbl_dup_lo (Gen.tbl_row_start i) = Header.rowAt i + 8
+    ∧ Gen.tbl_code_hi (Gen.tbl_row_start i) = Gen.tbl_code_lo (Gen.tbl_row_start i) + 4
+    ∧ Gen.tbl_const_hi (Gen.tbl_row_start i) = Gen.tbl_const_lo (Gen.tbl_row_start i) + 4
+    ∧ Gen.tbl_dup_hi (Gen.tbl_row_start i) = Gen.tbl_dup_lo (Gen.tbl_row_start i) + 4
+    ∧ Gen.tblr_slice_lo = Header.tableAt ∧ Gen.tblr_slice_hi = Header.tableAt + 12 * Header.tableRows
+    ∧ (∀ j, Gen.tblr_slice_lo + Gen.tblr_lo i j = Header.rowAt i + j ∧ Gen.tblr_hi i j = Gen.tblr_lo i j + 4)
+    ∧ Gen.tbl_patch_seek = Header.tableAt ∧ Gen.tbl_patch_count_seek = Gen.w_n_arrays := by
+  unfold Gen.tbl_bytes Gen.w_table Gen.tbl_code_lo Gen.tbl_const_lo Gen.tbl_dup_lo Gen.tbl_code_hi Gen.tbl_const_hi
+    Gen.tbl_dup_hi Gen.tbl_row_start Gen.tblr_slice_lo Gen.tblr_slice_hi Gen.tblr_lo Gen.tblr_hi Gen.tbl_patch_seek
+    Gen.tbl_patch_count_seek Gen.w_n_arrays Header.rowAt Header.tableAt Header.tableRows
+  refine ⟨rfl, by omega, by omega, by omega, by omega, by omega, by omega, rfl, rfl, fun j => ⟨by omega, by omega⟩, rfl, rfl⟩
+
 end Sgz.Tie
